@@ -116,7 +116,7 @@ def oracle(parts, outcome, obs):
 
 
 CLAIM = {
-    "text": "Theorems C16_filter_admits_only_listed / C16_unlisted_inert / C16_counters_exact (Coq, closed): for every stream and option record a line is applied only if its DF is listed under -f, every other line leaves table and counters unchanged, and after any stream the counter of each DF equals the number of applied lines of that DF (ascending keys, positive counts; nothing is counted without -c). Tied to the code through the built CLI (last counter line, rows) and the reader thread on streams mixing all DF values, every -f shape, +/- -c.",
+    "text": "Theorems C16_filter_admits_only_listed / C16_unlisted_inert / C16_counters_exact (Coq, closed): for every stream and option record a line is applied only if its DF is listed under -f, every other line leaves table and counters unchanged, and after any stream the counter of each DF equals the number of applied lines of that DF (ascending keys, positive counts; nothing is counted without -c); conversely a frame with a non-zero address whose DF is listed IS applied, from any state, and the outcome depends only on the SET of listed formats, not on their order or repetition (C16_applied_iff, C16_listed_is_applied, C16_filter_order_irrelevant). Tied to the code through the built CLI (last counter line, rows) and the reader thread on streams mixing all DF values, every -f shape, +/- -c.",
     "note": "Counters live for one read_lines call. Printing of the counter line is modelled in Model/Display.v and compared with CLI stdout.",
     "technique": "Coq proof by induction over arbitrary line lists (multiset-count invariant); CLI/reader differential runs + python oracle",
 }
